@@ -506,6 +506,7 @@ type GenOpts struct {
 	Aug          bool // contribute some nodes from an augmenting module
 	Presence     bool
 	Wraps        bool // write some leaf types through a typedef, as a union member or as a leafref to a sibling
+	NoUnionWrap  bool // ... but not as a union member (stores whose leaves have one Go type)
 }
 
 var AllTypes = []string{"int8", "int16", "int32", "int64", "uint8", "uint16", "uint32", "uint64", "decimal64", "string", "boolean", "enumeration", "bits", "identityref", "binary", "empty"}
@@ -655,7 +656,7 @@ func (g *gen) wrap(kids []*SNode) {
 			g.seq++
 			c.Type.Wrap, c.Type.WrapID = "typedef", g.seq
 		case 1:
-			if c.Type.Base != "bits" && c.Type.Base != "binary" {
+			if c.Type.Base != "bits" && c.Type.Base != "binary" && !g.o.NoUnionWrap {
 				c.Type.Wrap = "union"
 			}
 		case 2:
